@@ -109,7 +109,22 @@ impl zip::unstable::stream::ZipStreamVisitor for V {
 }
 
 /// Err(message) on a violation. A panic anywhere inside the crate is a violation.
+///
+/// Inputs that are rich in record signatures are run on a thread with a 1 MiB stack (half of Rust's
+/// default for spawned threads): stack use that grows with the number of records in the input then ends
+/// in a stack overflow, which kills the process and is reported as an abort by the supervisor.
 pub fn exercise(bytes: &[u8]) -> Result<Report, String> {
+    let pk = bytes.windows(2).filter(|w| w[0] == b'P' && w[1] == b'K').count();
+    if pk < 64 {
+        return exercise_inner(bytes);
+    }
+    std::thread::scope(|sc| {
+        let h = std::thread::Builder::new().stack_size(1 << 20).spawn_scoped(sc, || exercise_inner(bytes)).map_err(|e| format!("harness: cannot spawn: {e}"))?;
+        h.join().unwrap_or_else(|_| Err("PANIC escaped the driver".into()))
+    })
+}
+
+fn exercise_inner(bytes: &[u8]) -> Result<Report, String> {
     let len = bytes.len();
     let mut rep = Report { opened: false, appended: false, stream_entries: 0, entries: 0, peak_open: 0, ops_open: 0 };
     // ---- seekable reader, with I/O budget and memory measurement while opening
